@@ -58,6 +58,8 @@ def slices(tier, rng):
         out.append(mk('k3-nf1-ps8', 3, 8, 1, sc8, [0, 2]))
         out.append(mk('k3-nf2-ps4', 3, 4, 2, [0, 1, 2, 5], [0]))
         out.append(mk('k4-nf1-ps4', 4, 4, 1, [0, 1, 2, 5], [0, 3]))
+    for ps in ((4,) if tier == 'quick' else (4, 8)):
+        out.append(Slice('names-ps%d' % ps, 't_names', 9, lambda a, ps=ps: names_assume(a, ps, tier), opts={'must_reach': ['ok', 'err']}, ctx={'k': 0}))
     return out
 
 
@@ -98,9 +100,68 @@ def type_of_field(kd, tg, mods):
     return None
 
 
+# ---- t_names: a name in every position a description can mention one
+NK = {0: ['raw', 'u32'], 1: ['raw', 'm::T1'], 2: ['const*', ['raw', 'm::T1']], 5: ['raw', 'n::X'], 6: ['const*', ['raw', 'n::X']]}
+NK_TXT = {0: 'u32', 1: 'T1', 2: '*const T1', 3: 'Nope', 4: '*const Nope', 5: 'X', 6: '*const X', 7: ''}
+POS = ['field', 'enum base', 'impl parameter', 'impl return type', 'virtual parameter', 'virtual return type', 'extern value']
+
+
+def names_assume(a, ps, tier):
+    A = [a[0] == ps, z3.ULE(a[1], 1), z3.Or(a[3] == 0, a[3] == 3)]
+    for i in (2, 4, 6, 8): A.append(z3.ULE(a[i], 6))
+    for i in (5, 7): A.append(z3.ULE(a[i], 7))
+    if tier == 'quick':
+        # at most two positions deviate from u32 at a time (every pair of positions, every kind)
+        dev = [z3.If(a[i] != 0, z3.BitVecVal(1, 8), z3.BitVecVal(0, 8)) for i in range(2, 9)]
+        A.append(z3.ULE(sum(dev[1:], dev[0]), 2))
+    return A
+
+
+def names_resolvable(a, i):
+    k = a[i]
+    return z3.Or(k == 0, k == 1, k == 2, k == 7, z3.And(a[1] != 0, z3.Or(k == 5, k == 6)))
+
+
+def names_queries(a, leaf, py):
+    all_res = z3.And(*[names_resolvable(a, i) for i in range(2, 9)])
+    if not is_ok(py):
+        qs = [Query('rejected-implies-some-name-undefined', all_res)]
+        msg = py[1][-1] if isinstance(py[1][-1], str) else ''
+        mm = re.match(r'type resolution will not terminate, failed on types: \[(.*?)\] \(resolved types', msg)
+        if mm:
+            listed = set(re.findall(r'"([^"]*)"', mm.group(1)))
+            bad = []
+            for nm, i in (('m::T0', 2), ('m::E', 3)):
+                bad.append(names_resolvable(a, i) if nm in listed else z3.Not(names_resolvable(a, i)))
+            if listed - {'m::T0', 'm::E'}: bad.append(z3.BoolVal(True))
+            qs.append(Query('error-lists-exactly-the-unresolvable-types', z3.Or(*bad)))
+        return qs
+    its = items(py)
+    bad = [z3.Not(all_res)]
+    def expect(got, i, none_ok=False):
+        for k, ty in NK.items():
+            if got != ty: bad.append(a[i] == k)
+        if none_ok: bad.append(z3.And(a[i] == 7, z3.BoolVal(got is not None)))
+        if got is None and not none_ok: bad.append(z3.BoolVal(True))
+    try:
+        T0 = Item(its['m::T0']); V = Item(its['m::V']); E = Item(its['m::E'])
+        expect(T0.regions[0].type, 2)
+        expect(E.type, 3)
+        g = [f for f in T0.functions if f.name == 'g'][0]
+        expect([x for x in g.args if not isinstance(x, str)][0][1], 4); expect(g.ret, 5, True)
+        v = [f for f in V.vftable['functions'] if f.name == 'v'][0]
+        expect([x for x in v.args if not isinstance(x, str)][0][1], 6); expect(v.ret, 7, True)
+        evs = [m for m in py[1] if m[1] == 'm'][0][4]
+        expect(evs[0][3] if evs and len(evs[0]) > 3 else None, 8)
+    except (KeyError, IndexError, TypeError):
+        bad.append(z3.BoolVal(True))
+    return [Query('accepted-implies-every-name-resolved-to-its-definition', z3.Or(*bad))]
+
+
 def leaf_queries(I, a, leaf, py, sl):
-    k = sl.ctx['k']
     if leaf.kind != 'ret': return [Query('no-%s' % leaf.kind, z3.BoolVal(True))]
+    if sl.template == 't_names': return names_queries(a, leaf, py)
+    k = sl.ctx['k']
     res = spec(a, k)
     all_res = z3.And(*res)
     mods = ['n' if i % 2 else 'm' for i in range(k)]
@@ -145,6 +206,12 @@ def region_env(a, sl): return {}
 
 def describe(template, args):
     a = [int(x) for x in args]
+    if template == 't_names':
+        t = lambda i: NK_TXT.get(a[i], '?')
+        return ('// pointer size %d\nmodule n: pub type X { pub y: u32 }\nmodule m:%s\n  pub type T1 { pub x: u32 }\n  pub type T0 { pub f: %s }\n'
+                '  impl T0 { #[address(64)] pub fn g(&self, p: %s)%s; }\n  pub type V { vftable { pub fn v(&self, q: %s)%s; } }\n'
+                '  pub enum E: %s { A }\n  #[address(128)] pub extern ev: %s;') % (
+                    a[0], ' use n;' if a[1] else '', t(2), t(4), (' -> ' + t(5)) if a[5] != 7 else '', t(6), (' -> ' + t(7)) if a[7] != 7 else '', t(3), t(8))
     k = a[1]
     out = ['// pointer size %d, definition rotation / module order %d; modules m and n import each other; m also defines enum E: u32' % (a[0], a[2])]
     for i in range(min(k, 5)):
